@@ -36,7 +36,7 @@ def main():
     ap.add_argument("--seeds", default="1")
     a = ap.parse_args()
     meta = json.load(open(os.path.join(a.src, "meta.json")))
-    prop = meta.get("property")
+    prop = meta.get("property") or meta.get("breaks_property")
     checks = a.check or [prop]
     wt = f"/var/tmp/vp-seed-{a.name}"
     out = f"/var/tmp/vp-seed-{a.name}.out"
@@ -110,10 +110,11 @@ def main():
     if result["confirmed"]:
         dst = f"/verif/seeded/{a.name}"
         os.makedirs(dst, exist_ok=True)
-        shutil.copy(os.path.join(a.src, "patch.diff"), dst)
-        shutil.copy(os.path.join(a.src, "demo_test.go"), dst)
+        if os.path.abspath(a.src) != os.path.abspath(dst):
+            shutil.copy(os.path.join(a.src, "patch.diff"), dst)
+            shutil.copy(os.path.join(a.src, "demo_test.go"), dst)
         m = {"breaks_property": prop, "summary": meta.get("summary"), "needs_to_manifest": meta.get("needs_to_manifest"),
-             "files_changed": meta.get("files_changed"), "demo_package_dir": demo_dir,
+             "files_changed": meta.get("files_changed"), "demo_package_dir": demo_dir, "demo_run_pattern": meta.get("demo_run_pattern", "."),
              "origin": "independent sub-agent given only the property text and a scratch worktree",
              "confirmed_by_me": {k: v for k, v in result.items() if k != "ran"},
              "what_i_ran": "tools/seed_eval.py: fresh scratch worktree of /repo HEAD; go build; the 61 baseline tests; demo with and without the patch; then ./check <ID> with VERIF_REPO pointing at the patched worktree",
